@@ -20,6 +20,13 @@ PAIRS = [
     ("omitted output", "sort", "[a] b", "[a] b -> [a] b", [(4, 2)], {}, {}),
     ("omitted output", "set_at", "a [b], a p [1], a p", "a [b], a p [1], a p -> a [b]", [(2, 4), "idx:2,3,1:4", (2, 3)], {}, {}),
     ("omitted output", "add_at", "[b] c, p, p c", "[b] c, p, p c -> [b] c", [(4, 2), "idx:3:4", (3, 2)], {}, {}),
+    ("omitted output", "softmax", "b [s...] c", "b [s...] c -> b [s...] c", [(2, 3, 2, 4)], {}, {}),
+    ("omitted output", "flip", "b [...] c", "b [...] c -> b [...] c", [(2, 3, 4)], {}, {}),
+    ("omitted output", "sort", "[s...] c", "[s...] c -> [s...] c", [(3, 2)], {}, {}),
+    ("omitted output", "roll", "a [s...]", "a [s...] -> a [s...]", [(2, 3)], {"shift": 1}, {"shift": 1}),
+    ("omitted output", "add", "... c, ... c", "... c, ... c -> ... c", [(2, 3), (2, 3)], {}, {}),
+    ("omitted output", "multiply", "s... c, s... c, c", "s... c, s... c, c -> s... c", [(2, 2, 3), (2, 2, 3), (3,)], {}, {}),
+    ("omitted output", "sum", "b [s...] c", "b [s...] c -> b c", [(2, 3, 2, 4)], {}, {}),
     # 2 un-bracketed reduction / dot = brackets around axes missing from the output
     ("un-bracketed reduction", "sum", "a b c -> a c", "a [b] c -> a c", [(2, 3, 4)], {}, {}),
     ("un-bracketed reduction", "max", "a b c -> c", "[a b] c -> c", [(2, 3, 4)], {}, {}),
@@ -55,6 +62,11 @@ PAIRS = [
     ("scalar size", "id", "(a b)... -> a... b...", "(a b)... -> a... b...", [(4, 6)], {"b": 2}, {"b": (2, 2)}),
     ("scalar size", "id", "(s ds)... c -> (s...) ds... c", "(s ds)... c -> (s...) ds... c", [(4, 6, 2)], {"ds": 2}, {"ds": (2, 2)}),
     ("scalar size", "id", "a -> a b...", "a -> a b...", [(3,)], {"b": (5,)}, {"b": [5]}),
+    # (sizes that coincide numerically with other sizes / tensor dimensions of the same call: equal numbers must not identify different size sources)
+    ("scalar size", "id", "(s ds)... g -> (s...) ds... g", "(s ds)... g -> (s...) ds... g", [(4, 6, 2)], {"ds": 2, "g": 2}, {"ds": (2, 2), "g": 2}),
+    ("scalar size", "id", "(a b)... c -> a... b... c", "(a b)... c -> a... b... c", [(4, 6, 2)], {"a": 2, "c": 2}, {"a": (2, 2), "c": 2}),
+    ("scalar size", "add", "a..., b -> a... b", "a..., b -> a... b", [(2, 2), (2,)], {"a": 2}, {"a": (2, 2)}),
+    ("scalar size", "id", "(a b)... -> a... b...", "(a b)... -> a... b...", [(4, 4)], {"a": 2, "b": 2}, {"a": (2, 2), "b": (2, 2)}),
     # 7 nested '->' and ',' = their top-level distribution
     ("nested operators", "id", "a (b c -> c b)", "a (b c) -> a (c b)", [(2, 6)], {"b": 2}, {"b": 2}),
     ("nested operators", "id", "(a, b) c -> (a + b) c", "(a) c, (b) c -> (a + b) c", [(2, 3), (4, 3)], {}, {}),
